@@ -221,6 +221,16 @@ func credPair(r *credRun, S [][]byte, ci, si int, viaListener bool, variant stri
 	go func() {
 		defer wg.Done()
 		defer close(cliDone)
+		if viaListener {
+			// the station registers a session before its client dials; a hello that arrives before the
+			// registration is rejected legitimately (modelled family covers that order)
+			for w := 0; w < 4000; w++ {
+				if a, b := dtls.VerifListenerSizes(l); (a >= 1 && b >= 1) || srv.done {
+					break
+				}
+				time.Sleep(2 * time.Millisecond)
+			}
+		}
 		if variant == "forged" {
 			// knows the server-side secret's public hello random (it is sent in the clear) but not the secret
 			_, _, rnd, _ := dtls.VerifCerts(S[si])
@@ -244,7 +254,8 @@ func credPair(r *credRun, S [][]byte, ci, si int, viaListener bool, variant stri
 	// once the client has failed, a server that is still waiting is released
 	go func() {
 		<-cliDone
-		if cli.err != nil {
+		if cli.err != nil || variant == "forged" {
+			// (a forged client does not speak SCTP: whatever its handshake result, nothing more will come)
 			time.Sleep(200 * time.Millisecond)
 			scancel()
 		}
@@ -287,8 +298,10 @@ func credPair(r *credRun, S [][]byte, ci, si int, viaListener bool, variant stri
 		r.viol("handshake-completes-with-different-secrets", fmt.Sprintf("server side (secret %x) accepted a client using %x (%s)", S[si], S[ci], variant), rp)
 		return "diff-accepted"
 	}
-	if cli.err == nil && variant == "" {
-		r.viol("handshake-completes-with-different-secrets", fmt.Sprintf("client side (secret %x) accepted a server using %x", S[ci], S[si]), rp)
+	if cli.err == nil {
+		// a DTLS client only finishes after the server's Finished, which the server sends after it has
+		// accepted the client's certificate: completion on either side means both sides completed
+		r.viol("handshake-completes-with-different-secrets", fmt.Sprintf("client (secret %x, %s) completed the handshake with a server using %x", S[ci], variant, S[si]), rp)
 		return "diff-accepted"
 	}
 	if viaListener {
